@@ -1,4 +1,5 @@
 import Tibc.Props.C09
+import Tibc.Expect.Packet
 #print axioms Tibc.C09.send_commit_exact
 #print axioms Tibc.C09.seqInv_prim
 #print axioms Tibc.C09.seqInv_prims
